@@ -32,10 +32,11 @@ def readVarint (b : Bytes) : Option (Nat × Bytes) :=
 
 def u32 (n : Nat) : Nat := n % 2 ^ 32
 
-/-- Skip a group (wire type 3) up to its matching end tag. -/
-def skipGroup : Nat → Nat → Bytes → Option Bytes
+/-- Skip a group (wire type 3) up to its matching end tag. `stack` holds the field numbers of the
+    groups currently open (innermost first); an end tag must carry the number of the innermost one. -/
+def skipGroup : Nat → List Nat → Bytes → Option Bytes
   | 0, _, _ => none
-  | fuel + 1, depth, b =>
+  | fuel + 1, stack, b =>
     match readVarint b with
     | none => none
     | some (t, rest) =>
@@ -43,16 +44,21 @@ def skipGroup : Nat → Nat → Bytes → Option Bytes
       if t / 8 == 0 || t ≥ 2 ^ 32 then none
       else if wt == 0 then
         match readVarint rest with
-        | some (_, r) => skipGroup fuel depth r
+        | some (_, r) => skipGroup fuel stack r
         | none => none
-      else if wt == 1 then if rest.length < 8 then none else skipGroup fuel depth (rest.drop 8)
+      else if wt == 1 then if rest.length < 8 then none else skipGroup fuel stack (rest.drop 8)
       else if wt == 2 then
         match readVarint rest with
-        | some (n, r) => if r.length < n then none else skipGroup fuel depth (r.drop n)
+        | some (n, r) => if r.length < n then none else skipGroup fuel stack (r.drop n)
         | none => none
-      else if wt == 3 then skipGroup fuel (depth + 1) rest
-      else if wt == 4 then (if depth == 0 then some rest else skipGroup fuel (depth - 1) rest)
-      else if wt == 5 then if rest.length < 4 then none else skipGroup fuel depth (rest.drop 4)
+      else if wt == 3 then skipGroup fuel (t / 8 :: stack) rest
+      else if wt == 4 then
+        match stack with
+        | [] => none
+        | top :: more =>
+          if top != t / 8 then none
+          else if more.isEmpty then some rest else skipGroup fuel more rest
+      else if wt == 5 then if rest.length < 4 then none else skipGroup fuel stack (rest.drop 4)
       else none
 
 /-- Split a message body into its top-level fields. -/
@@ -79,7 +85,7 @@ def splitFields : Nat → Bytes → Option (List Field)
           else (splitFields fuel (r.drop n)).map ((fnum, .len (r.take n)) :: ·)
         | none => none
       else if wt == 3 then
-        match skipGroup (rest.length + 1) 0 rest with
+        match skipGroup (rest.length + 1) [fnum] rest with
         | some r => if r.length < rest.length then splitFields fuel r else none
         | none => none
       else if wt == 5 then
